@@ -321,7 +321,8 @@ func commentItems(b fmtBehaviour, gaps []piece, want, got []lexComment) []map[st
 	}
 	for i, w := range want {
 		g := gaps[b.ExpCm[i].At-1]
-		it := map[string]any{"gap_node": g.N, "gap_label": g.L, "gap_class": g.C, "documented": g.S == "1", "cmarker": b.Cm[i].M, "csp": b.Cm[i].Sp}
+		it := map[string]any{"gap_node": g.N, "gap_label": g.L, "gap_class": g.C, "documented": g.S == "1", "cmarker": b.Cm[i].M, "csp": b.Cm[i].Sp,
+			"gap_next": nextWord(b.Toks, b.ExpCm[i].At)}
 		switch {
 		case count[w.Body] == 0:
 			it["obs"] = "comment-lost"
@@ -339,6 +340,24 @@ func commentItems(b fmtBehaviour, gaps []piece, want, got []lexComment) []map[st
 		items = append(items, map[string]any{"obs": "comment-order-or-extra", "got": got})
 	}
 	return items
+}
+
+// nextWord is the word that follows gap number at in the template (class field for findings)
+func nextWord(toks []string, at int) string {
+	n := 0
+	for i, t := range toks {
+		if strings.HasPrefix(t, "@") {
+			n++
+			if n == at {
+				for _, w := range toks[i+1:] {
+					if !strings.HasPrefix(w, "@") && w != "\n" && w != "\n\n" {
+						return w
+					}
+				}
+			}
+		}
+	}
+	return ""
 }
 
 func fmtReplay(args []string) int {
